@@ -27,7 +27,11 @@ MANIFEST = dict(
          "Ord::cmp on Ratio<i32>: the comparison terminates and equals the comparison of a*d with c*b; over all exact "
          "representation pairs (and float-float) < = > are decided by the mathematical values, hence trichotomy, "
          "transitivity, consistency of <= >= (Rust's derived forms), the variadic fold as the conjunction over adjacent "
-         "pairs, min/max/zero?/positive?/negative?; a refutation witness for the recorded exact-vs-inexact class. Tied to "
+         "pairs, min/max/zero?/positive?/negative?; with floats: f64_to_Q is proved equal to Flocq's real value of a double, "
+         "Float-Float comparison is the comparison of the values unconditionally, and all 16 representation pairs (infinities "
+         "included) compare by value whenever every exact operand converts exactly to a double (decidable side condition, "
+         "proved for |integers| <= 2^53 and dyadic rationals), hence trichotomy and transitivity there; refutation "
+         "witnesses for the recorded exact-vs-inexact rounding class (2^53+1 vs 2^53, 1/3 vs its double). Tied to "
          "/repo by all pairs of the palette (exact values in every representation + floats), sampled triples, debug and "
          "release builds, 3-way.",
     design="DESIGN.md section 5 C09",
@@ -36,8 +40,8 @@ MANIFEST = dict(
          "Ratio32.cmp_correct is closed under the global context; theorems whose statement mentions a number.rs function "
          "report the four standard-library axioms behind Coq's reals (ClassicalDedekindReals.sig_not_dec, sig_forall_dec, "
          "functional_extensionality_dep, Classical_Prop.classic) because the float arms of the same functions are Flocq "
-         "operations whose validity proofs are built over R; no other axiom. OPEN (stated, oracle-checked only): the 7 "
-         "representation pairs that involve a Float.",
+         "operations whose validity proofs are built over R; no other axiom. The unrestricted float statement is false "
+         "(the recorded rounding class) and is kept with its refutation.",
     technique="Rocq/Coq proof (Euclid-style induction for the continued-fraction comparison) + correspondence check")
 
 
